@@ -7,6 +7,43 @@ Gs = 'sm9_u256_pairing($self.ppubs, SM9_POINT_MONT_P1)'
 R = 'rand#1(SM9_N_MINUS_ONE)'
 
 
+def pow_exponent_range(cx, rule_range='G-SM9V-RANGE', rule_assert='L-POW-ASSERT'):
+    """Fp12::pow asserts e <= N-1: the verifier must have range-checked the attacker-supplied h before it becomes an exponent,
+    and the assertion must admit every legal exponent"""
+    s9 = pa.sm9()
+    fn = cx.fn('<impl key::Sm9SignMasterKey>::verify_sign', rule_range)
+    if fn is None:
+        return
+    P = Prov(fn, cx.F); cn = Canon(fn, P)
+    sinks = G.ok_sinks(fn)
+    # ---- h must be range checked before it is used as an exponent (pow asserts on its range)
+    pows = [b for b in G.call_blocks(fn, '<impl fields::fp12::Fp12>::pow')]
+    G.range_guard(cx, rule_range, 'verify_sign', fn, P, pows or sinks, lambda e: cn.c(norm(e)) == '$h', 1, s9.n - 1,
+                  'h must lie in [1, N-1] before g^h is computed (else error, not a crash)')
+    # ---- the exponent-range assertion in Fp12::pow must admit every legal exponent (<= N-1)
+    pw = cx.fn('<impl fields::fp12::Fp12>::pow')
+    if pw is not None:
+        Pp = Prov(pw, cx.F); cp = Canon(pw, Pp)
+        asserts = [b for b, t_ in pw.calls() if 'panicking' in t_['fn']['name']]
+        bound = None
+        for b, p, te, fe in G.bool_switches(pw, Pp):
+            if p.kind == 'cmp' and cp.c(p.args[0]) == '$e' and const_int(p.args[1]) is not None:
+                c = const_int(p.args[1])
+                # edge leading to the panic
+                for edges, truth in ((te, True), (fe, False)):
+                    if any(a in pw.reachable(edges[0][1]) for a in asserts) and not any(a in pw.reachable((fe if truth else te)[0][1]) for a in asserts):
+                        t_eff = truth if not p.neg else (not truth)
+                        # panic when (e OP c) == t_eff  -> allowed set is the complement
+                        allowed_hi = {('Lt', False): c - 1, ('Le', False): c, ('Ge', True): c - 1, ('Gt', True): c}.get((p.op, t_eff))
+                        bound = allowed_hi
+        if asserts:
+            cx.add(rule_assert, 'Fp12::pow', bound is not None and bound >= s9.n - 1,
+                   'the assertion in Fp12::pow admits every exponent in [0, N-1] (admits up to %s)' % (hex(bound) if bound is not None else '?'), pw.loc())
+        else:
+            cx.hold(rule_assert, 'Fp12::pow', 'Fp12::pow contains no assertion', pw.loc())
+
+
+
 def run(cx):
     cx.not_decided.append('agreement with GM/T 0044.2 values and pairing correctness (functional, see C12/C13)')
     s9 = pa.sm9()
@@ -50,10 +87,7 @@ def run(cx):
     truth = not (insts and insts[0].kind == 'cmp' and insts[0].op == 'Ne')
     G.guard(cx, 'G-SM9V-FINAL', 'verify_sign', fn, P, sinks, mfinal, truth,
             'final comparison h2 == h with h2 = H2(M || e(S, [h1]P2 + Ppub-s) * g^h), h1 = H1(ID || hid_sign)')
-    # ---- h must be range checked before it is used as an exponent (pow asserts on its range)
-    pows = [b for b in G.call_blocks(fn, '<impl fields::fp12::Fp12>::pow')]
-    G.range_guard(cx, 'G-SM9V-RANGE', 'verify_sign', fn, P, pows or sinks, lambda e: cn.c(norm(e)) == '$h', 1, s9.n - 1,
-                  'h must lie in [1, N-1] before g^h is computed (else error, not a crash)')
+    pow_exponent_range(cx)
     # ---- S must be a curve point before the pairing
     prs = [b for b in G.call_blocks(fn, 'points::sm9_u256_pairing') if '$s' in [FR.arg_canon(fn, P, cn, b, 1)]]
     if prs:
@@ -61,27 +95,6 @@ def run(cx):
                 'S must be on the curve before e(S, P) is computed')
     else:
         cx.lost('G-SM9V-CURVE', 'verify_sign', 'pairing with the signature point not found', fn.loc())
-    # ---- the exponent-range assertion in Fp12::pow must admit every legal exponent (<= N-1)
-    pw = cx.fn('<impl fields::fp12::Fp12>::pow')
-    if pw is not None:
-        Pp = Prov(pw, cx.F); cp = Canon(pw, Pp)
-        asserts = [b for b, t_ in pw.calls() if 'panicking' in t_['fn']['name']]
-        bound = None
-        for b, p, te, fe in G.bool_switches(pw, Pp):
-            if p.kind == 'cmp' and cp.c(p.args[0]) == '$e' and const_int(p.args[1]) is not None:
-                c = const_int(p.args[1])
-                # edge leading to the panic
-                for edges, truth in ((te, True), (fe, False)):
-                    if any(a in pw.reachable(edges[0][1]) for a in asserts) and not any(a in pw.reachable((fe if truth else te)[0][1]) for a in asserts):
-                        t_eff = truth if not p.neg else (not truth)
-                        # panic when (e OP c) == t_eff  -> allowed set is the complement
-                        allowed_hi = {('Lt', False): c - 1, ('Le', False): c, ('Ge', True): c - 1, ('Gt', True): c}.get((p.op, t_eff))
-                        bound = allowed_hi
-        if asserts:
-            cx.add('L-POW-ASSERT', 'Fp12::pow', bound is not None and bound >= s9.n - 1,
-                   'the assertion in Fp12::pow admits every exponent in [0, N-1] (admits up to %s)' % (hex(bound) if bound is not None else '?'), pw.loc())
-        else:
-            cx.hold('L-POW-ASSERT', 'Fp12::pow', 'Fp12::pow contains no assertion', pw.loc())
 
 
 _run0 = run
@@ -93,3 +106,16 @@ def run(cx):
     fn = cx.fn('gm_sm9::points::twist_point_add_full', 'S-JADD')
     if fn is not None:
         S.s_jadd(cx, 'S-JADD', fn, 'TwistPoint::TwistPoint')   # P = [h1]P2 + Ppub-s must also be right when the two points coincide
+
+
+_run_h = run
+
+
+def run(cx):
+    from .C16 import check_hash, check_from_hash
+    _run_h(cx)
+    # the hash-to-range functions the signature is built from (H2 for h, H1 for the verifier's h1)
+    s = pa.sm9()
+    check_hash(cx, 'gm_sm9::key::sm9_u256_hash2', 'H2', s.consts['SM9_HASH2_PREFIX'], ['$data', '$wbuf'])
+    check_hash(cx, 'gm_sm9::key::sm9_u256_hash1', 'H1', s.consts['SM9_HASH1_PREFIX'], ['$id', 'array{$hid}'])
+    check_from_hash(cx)
